@@ -517,6 +517,8 @@ def _run_case(case, base):
                 iid = json.loads(post(srv.client, "/start-instance").data)["instance_uuid"]
             hist = []
             for ps in inst.get("prior", []):
+                if viol or srv.bptk(iid) is None:
+                    break
                 # an EARLIER session on the same instance: other scenario managers / scenarios / equations / settings
                 srv.bptk(iid).begin_session(scenarios=ps["scs"], scenario_managers=ps["sms"], settings=copy.deepcopy(ps.get("settings", {})),
                                             agents=[], agent_states=[], agent_properties=[], agent_property_types=[],
@@ -787,6 +789,26 @@ def gen_session_step(rng, sms, scs):
     return gen_step(rng, sms, scs)
 
 
+def empties_cases(quick):
+    """2-3 instances on one server (and a second session on one of them), different numbers of steps, every nested form of a
+    dictionary without a value ({"m": {}}, {"m": {"s": {}}}, {"m": {"s": {"constants": {}}}}) in ONE instance's settings at
+    different step indices, the others without; both orders of the instances (= both save orders), both modes"""
+    e1, e2, e3 = {"smA": {}}, {"smA": {"a": {}}}, {"smA": {"a": {"constants": {}}}, "smB": {}}
+    c5 = {"smA": {"a": {"constants": {"c": 5.0}}}}
+    rich = {"sms": ["smA", "smB"], "scs": ["a"], "eqs": ["s"],
+            "steps": [{"k": "set", "settings": c5}, {"k": "set", "settings": e1}, {"k": "set", "settings": e2}, {"k": "multi", "n": 2, "settings": e3}], "extra": [{"k": "empty"}]}
+    short = {"sms": ["smA"], "scs": ["a", "b"], "eqs": ["s", "c"], "steps": [{"k": "set", "settings": c5}], "extra": []}
+    mid = {"sms": ["smB"], "scs": ["a"], "eqs": ["c"], "steps": [{"k": "empty"}, {"k": "set", "settings": {"smB": {"a": {}}}}], "extra": [{"k": "nobody"}],
+           "prior": [{"sms": ["smA"], "scs": ["b"], "eqs": ["g"], "settings": {}, "steps": [{"k": "set", "settings": e1}, {"k": "empty"}, {"k": "empty"}],
+                      "end": False, "check": False}]}
+    out = []
+    for compress in (True, False):
+        for order in ([rich, short, mid], [short, mid, rich], [mid, rich]) if not quick or compress else ([rich, short],):
+            out.append({"spec": {"start": 1.0, "dt": 0.5, "stop": 9.0}, "compress": compress, "timeouts": False,
+                        "instances": copy.deepcopy(order)})
+    return out
+
+
 def several_sessions_cases(quick):
     """A first session and a second one with other scenario managers / scenarios / equations / session settings on the same
     instance, the second one taken to the clock position of the last write: all shapes x ended or not x both modes."""
@@ -972,7 +994,58 @@ def probe(base):
     facts["restoreKeepsClock"] = not any(k in ("session-clock-not-restored", "next-step-off-grid", "session-fields-not-restored") for k, _, _ in v)
     # wave 2 -- the pickler: a real session state in which one settings object is logged for several steps
     facts.update(probe_pickle(base))
+    # wave 8 -- compress / decompress are functions of one log (nothing of an earlier call is in a later result)
+    pure, detail = probe_pure()
+    facts["compressIsPure"] = pure
+    if not pure:
+        facts["compressIsPure_detail"] = detail
     return facts
+
+
+PURE_A = {2.0: {"smA": {"a": {"constants": {"c": 5.0}}}}, 2.5: {"smA": {}}, 3.0: {"smA": {"a": {}}, "smB": {"a": {"constants": {}}}}}
+PURE_B = {1.0: {"smA": {"b": {"constants": {"k": 3.0}}}}}
+PURE_RA = {k: {"smA": {"a": {"s": {k: float(i)}}}, "nosuch": {}} for i, k in enumerate([2.0, 2.5, 3.0])}
+PURE_RB = {1.0: {"smB": {"a": {"c": {1.0: 7.0}}}}}
+
+PURE_SCRIPT = """
+import sys, json, importlib.util
+spec = importlib.util.spec_from_file_location("sc_fresh", sys.argv[1])
+sc = importlib.util.module_from_spec(spec); spec.loader.exec_module(sc)
+logs = json.loads(sys.stdin.read())
+fl = lambda d: {float(k): v for k, v in d.items()}
+out = {}
+for name, (st, rs) in logs.items():
+    out[name] = [sc.compress_settings(fl(st)), sc.compress_results({float(k): {m: {s_: {e: {float(t): x for t, x in ser.items()} for e, ser in b.items()}
+                                                                     for s_, b in a.items()} for m, a in v.items()} for k, v in rs.items()})]
+print(json.dumps(out, sort_keys=True))
+"""
+
+
+def probe_pure():
+    """compress A, then B, then A again: the two results for A are the same bytes; B after A equals B compressed alone in a FRESH
+    process (the module loaded from its file, nothing else); decompress(B) after A gives B back.  -> (pure, detail)"""
+    import subprocess
+    from BPTK_Py.util import statecompression as sc
+    dump = lambda x: json.dumps(x, sort_keys=True)
+    try:
+        # (dumped at once: a result may alias process-level state that later calls mutate)
+        a1 = dump([sc.compress_settings(copy.deepcopy(PURE_A)), sc.compress_results(copy.deepcopy(PURE_RA))])
+        b1 = [sc.compress_settings(copy.deepcopy(PURE_B)), sc.compress_results(copy.deepcopy(PURE_RB))]
+        b1 = json.loads(dump(b1))
+        a2 = dump([sc.compress_settings(copy.deepcopy(PURE_A)), sc.compress_results(copy.deepcopy(PURE_RA))])
+        if a1 != a2:
+            return False, f"compress(A) twice in one process: first {a1[:300]} then {a2[:300]}"
+        p = subprocess.run(["/venv/bin/python", "-c", PURE_SCRIPT, sc.__file__], input=json.dumps({"B": [PURE_B, PURE_RB]}),
+                           capture_output=True, text=True, timeout=60)
+        fresh = json.loads(p.stdout)["B"]
+        if dump(fresh) != dump(json.loads(dump(b1))):
+            return False, f"compress(B) after compress(A) {dump(b1)[:300]} differs from compress(B) in a fresh process {dump(fresh)[:300]}"
+        back = sc.decompress_settings(json.loads(json.dumps(b1[0])))
+        if {tkey(k): v for k, v in back.items()} != {tkey(k): v for k, v in PURE_B.items()}:
+            return False, f"decompress(compress(B)) after compress(A) gives {back}"
+        return True, ""
+    except Exception as e:
+        return False, f"compress(B) after compress(A) cannot be decompressed / compared: {e!r}"
 
 
 def probe_pickle(base):
@@ -1078,6 +1151,7 @@ def gen_lean(facts):
     res = bool(facts.get("decoderResolvesRefs"))
     sav = bool(facts.get("saveAfterEveryStepRequest"))
     clk = bool(facts.get("restoreKeepsClock"))
+    pur = bool(facts.get("compressIsPure"))
     head = ("import Bptk.Props.C19\n/-! GENERATED by harness/props/c19.py from /repo on every run — do not edit. -/\n"
             "namespace Bptk.C19.Gen\n"
             f"/-- probed: decompress(compress(log)) keeps the step times: {facts['compressionKeepsSteps']}; "
@@ -1087,9 +1161,11 @@ def gen_lean(facts):
             f"written last is in the file): {sav}\n"
             f"-- the restored clock is the saved clock (dt 0.125, clock 0.375, lazy load / load-state / start-up): {clk}\n"
             f"def cfg : Cfg := {{ decoderResolvesRefs := {'true' if res else 'false'}, saveAfterEveryStepRequest := {'true' if sav else 'false'}, "
-            f"restoreKeepsClock := {'true' if clk else 'false'} }}\n"
+            f"restoreKeepsClock := {'true' if clk else 'false'}, compressIsPure := {'true' if pur else 'false'} }}\n"
+            f"-- compress(A), compress(B), compress(A) give the same bytes for A, and B equals B compressed alone in a fresh process: {pur}\n"
             "theorem holds_all_codecs : C19_full := C19_full_holds\n#print axioms holds_all_codecs\n"
-            + ("theorem holds : C19_full_cfg cfg := C19_full_of_good cfg (by decide)\n#print axioms holds\n" if res and sav and clk else
+            + ("theorem holds : C19_full_cfg cfg := C19_full_of_good cfg (by decide)\n#print axioms holds\n" if res and sav and clk and pur else
+               "theorem violated : ¬ C19_full_cfg cfg := C19_witness_compress_accumulates cfg (by decide)\n#print axioms violated\n" if res and sav and clk else
                "theorem violated : ¬ C19_full_cfg cfg := C19_witness_plain_reader cfg (by decide)\n#print axioms violated\n" if not res else
                "theorem violated : ¬ C19_full_cfg cfg := C19_witness_skip_save cfg (by decide)\n#print axioms violated\n" if not sav else
                "theorem violated : ¬ C19_full_cfg cfg := C19_witness_rounding_restore cfg (by decide)\n#print axioms violated\n"))
@@ -1184,7 +1260,7 @@ def _run(chk, base):
                        "compressed file content, restored state, served results (correspondence). exhaustive: all step-kind sequences up to "
                        "length L at start 2.0/dt 0.5 and one mixed history on every lattice point, both modes; non-trivial = at least one step "
                        "with non-empty settings and one without")
-    cases = exhaustive_cases(chk.quick) + several_sessions_cases(chk.quick)
+    cases = empties_cases(chk.quick) + exhaustive_cases(chk.quick) + several_sessions_cases(chk.quick)
     n_exh = len(cases)
     rng = chk.rng.fork("c19-random")
     for _ in range(32 if chk.quick else 600):
@@ -1242,6 +1318,11 @@ def _run(chk, base):
         small = shrink_case(case, key, base)
         v2 = [v for v in run_case(small, base)[2] if v[0] == key] or [v for v in viol if v[0] == key]
         chk.add_finding(key, v2[0][1], {"case": small, "violations": [list(v) for v in v2]})
+    if not facts.get("compressIsPure", True):
+        chk.add_finding("compress-not-pure", "the compressed form of a log depends on what was compressed before in the process: "
+                        + facts.get("compressIsPure_detail", ""), {"purity": {"A": [{str(k): v for k, v in PURE_A.items()}],
+                                                                              "B": [{str(k): v for k, v in PURE_B.items()}]},
+                                                                   "detail": facts.get("compressIsPure_detail")})
     if not ok:
         chk.add_finding("obligation", f"proof obligations of C19 no longer check: {why}",
                         {"theorem": "Bptk.C19.Gen.* / Bptk.Props.C19", "detail": why}, found_input=False)
@@ -1258,11 +1339,19 @@ def replay(path):
     import logging
     logging.getLogger("werkzeug").setLevel(logging.ERROR)
     r = json.load(open(path))["replay"]
+    if "purity" in r:
+        pure, detail = probe_pure()
+        print("compress(A), compress(B), compress(A) with A =", PURE_A, "B =", PURE_B)
+        print("pure on the current tree:", pure, detail)
+        return 0 if pure else 1
     if "case" not in r or r["case"] is None:
         print("no concrete input stored:", r)
         return 1
     base = scratch_dir("bptkverif-c19-")
     try:
+        import contextlib, io
+        with contextlib.redirect_stdout(io.StringIO()):
+            probe(base)                                   # the check runs its probes first (process-level state, probed facts)
         req, exp, viol = run_case(r["case"], base)
         model = drive("C19", req) if req else []
     finally:
